@@ -10,6 +10,7 @@ mod ops_iter;
 mod oracle;
 mod queue;
 mod runner;
+mod special;
 mod types;
 
 use runner::*;
@@ -40,6 +41,8 @@ fn main() {
             let _ = std::fs::create_dir_all(&a.work_dir);
             let rep = match prop {
                 1 | 2 | 3 | 4 | 6 | 7 | 8 | 9 | 11 | 12 | 13 | 15 | 16 | 17 => run_history_property(&a),
+                14 => special::run_c14(&a),
+                18 => special::run_c18(&a),
                 _ => {
                     eprintln!("property {} has no runner", prop);
                     std::process::exit(2);
@@ -58,7 +61,8 @@ fn main() {
             let text = std::fs::read_to_string(&file).expect("read replay file");
             let strict = args.iter().any(|a| a == "--strict");
             let known = if strict { vec![] } else { load_known(&known_path, &format!("C{:02}", prop)) };
-            match replay_history(prop, &text, &known) {
+            let res = if matches!(prop, 14 | 18) { special::replay_special(prop, &text) } else { replay_history(prop, &text, &known) };
+            match res {
                 Ok(None) => {
                     println!("PASS");
                     std::process::exit(0)
